@@ -412,3 +412,21 @@ Example C15_source_users_for_resource_example :
   match RsrcLang.rrun k_rbac15 ex_state 1008 None 40 ImplResourceGen.users_for_resource_gen with
   | Ok (l, _) => l = [[1006; 1008; 1011]; [1004; 1008; 1011]] | Err _ => False end.
 Proof. vm_compute. reflexivity. Qed.
+
+(* ---------- get_implicit_permissions_for_user, from the source ----------
+   get_named_implicit_permissions_for_user (to which get_implicit_permissions_for_user delegates with "p") regenerated from
+   casbin/enforcer.py on this run (coq/gen/ImplPermsGen.v; recognised steps), executed by PermLang's interpreter: result, the
+   state left by the role walk and errors are those of Mgmt.get_implicit_permissions - the function of the
+   enforce <-> implicit-permission theorems above. *)
+From PyCasbin Require PermLang PermTie.
+From PyCasbinGen Require ImplPermsGen.
+
+Theorem C15_source_get_implicit_permissions_for_user : forall k s u d,
+  PermLang.prun k u d 30 ImplPermsGen.implicit_permissions_gen s = get_implicit_permissions k s u d.
+Proof. exact PermTie.tie_get_implicit_permissions. Qed.
+Print Assumptions C15_source_get_implicit_permissions_for_user.
+
+Example C15_source_implicit_permissions_example :
+  match PermLang.prun k_rbac15 1003 0 30 ImplPermsGen.implicit_permissions_gen ex_state with
+  | Ok (l, _) => l = [[1007; 1008; 1011]] | Err _ => False end.
+Proof. vm_compute. reflexivity. Qed.
